@@ -2,6 +2,7 @@ package vacuum
 
 import (
 	"lunar/toolkit-core/clock"
+	"lunar/toolkit-core/verifhook"
 	"sync"
 	"time"
 
@@ -80,6 +81,7 @@ func (mapVacuum *MapVacuum[K, V]) vacuum() {
 	mapVacuum.entriesMutex.RUnlock()
 
 	if len(mapVacuumEntries) == 0 {
+		verifhook.Point("vacuum.pass", "name", mapVacuum.name, "removed", 0)
 		return
 	}
 
@@ -104,4 +106,5 @@ func (mapVacuum *MapVacuum[K, V]) vacuum() {
 		log.Trace().
 			Msgf("vacuum (%s) vacuumed %d entries", mapVacuum.name, deleteUntil)
 	}
+	verifhook.Point("vacuum.pass", "name", mapVacuum.name, "removed", deleteUntil)
 }
